@@ -7,7 +7,7 @@ import (
 // Skeleton programs for dependency / fork shapes that the purely random
 // generator reaches rarely.  Types and literal values are still random.
 
-const NTemplates = 6
+const NTemplates = 8
 
 func ref(call string, path ...string) *Exp { return &Exp{Kind: ERefCall, Id: call, Path: path} }
 func self(id string, path ...string) *Exp  { return &Exp{Kind: ERefSelf, Id: id, Path: path} }
@@ -152,6 +152,38 @@ func Template(kind int, seed int64, cfg *Config) *Program {
 				{Callee: "INNER", Alias: "M2", Map: true, Binds: []Binding{{Id: "a", Exp: ref("GEN", "arr"), Split: true}}},
 			},
 			Ret: []Binding{{Id: "y", Exp: ref("M1", "y")}, {Id: "y2", Exp: ref("M2", "y")}}}
+		p.Pipelines = []*Pipeline{inner, top}
+	case 6:
+		// map calls over the output of a call that is disabled at run time by
+		// another call's flag: with the same condition on the map call, without
+		// one, and a plain consumer of the disabled call for comparison
+		top := &Pipeline{Name: "TOP", Outs: []Param{{Name: "y1", Type: wrap(TInt)}, {Name: "y2", Type: wrap(TInt)}, {Name: "y3", Type: TInt}, {Name: "arr", Type: coll}},
+			Calls: []*Call{
+				{Callee: "GEN", Alias: "FLAG", Binds: []Binding{{Id: "seed", Exp: lit(s1)}}},
+				{Callee: "GEN", Alias: "DATA", Disabled: ref("FLAG", "flag"), Binds: []Binding{{Id: "seed", Exp: lit(s2)}}},
+				{Callee: "USE", Alias: "M1", Map: true, Disabled: ref("FLAG", "flag"), Binds: []Binding{{Id: "x", Exp: ref("DATA", "arr"), Split: true}}},
+				{Callee: "USE", Alias: "M2", Map: true, Binds: []Binding{{Id: "x", Exp: ref("DATA", "arr"), Split: true}}},
+				{Callee: "USE", Alias: "ONE", Binds: []Binding{{Id: "x", Exp: ref("DATA", "one")}}},
+			},
+			Ret: []Binding{{Id: "y1", Exp: ref("M1", "y")}, {Id: "y2", Exp: ref("M2", "y")}, {Id: "y3", Exp: ref("ONE", "y")}, {Id: "arr", Exp: ref("DATA", "arr")}}}
+		p.Pipelines = []*Pipeline{top}
+	case 7:
+		// a map-called sub-pipeline returns the output of a stage that does not
+		// depend on the mapped input (GEN first: the schedules slow it down, so
+		// the independent stage is done long before the map source is known)
+		inner := &Pipeline{Name: "INNER", Ins: []Param{{Name: "a", Type: T}, {Name: "k", Type: TInt}},
+			Outs: []Param{{Name: "y", Type: TInt}, {Name: "yi", Type: TInt}},
+			Calls: []*Call{
+				{Callee: "USE", Alias: "DEP", Binds: []Binding{{Id: "x", Exp: self("a")}}},
+				{Callee: "USE2", Alias: "IND", Binds: []Binding{{Id: "x", Exp: &Exp{Kind: ENull}}, {Id: "w", Exp: self("k")}}},
+			},
+			Ret: []Binding{{Id: "y", Exp: ref("DEP", "y")}, {Id: "yi", Exp: ref("IND", "y")}}}
+		top := &Pipeline{Name: "TOP", Outs: []Param{{Name: "yi", Type: wrap(TInt)}},
+			Calls: []*Call{
+				{Callee: "GEN", Binds: []Binding{{Id: "seed", Exp: lit(s1)}}},
+				{Callee: "INNER", Alias: "M1", Map: true, Binds: []Binding{{Id: "a", Exp: ref("GEN", "arr"), Split: true}, {Id: "k", Exp: lit(s2)}}},
+			},
+			Ret: []Binding{{Id: "yi", Exp: ref("M1", "yi")}}}
 		p.Pipelines = []*Pipeline{inner, top}
 	}
 	if p.Top == nil {
